@@ -110,6 +110,12 @@ def dump_obj(o):
             fields["v"] = _np(o.v)
             fields["g"] = _np(o.g)
         return dict(type="factor", head=(factor_kind(o), o.R, o.D), fields=fields)
+    # [hetero] heteroscedastic conditionals subclass ConditionalGaussianPDF: test them first
+    if type(o).__name__.startswith("Heteroscedastic") and hasattr(o, "W") and hasattr(o, "A"):
+        from machine_hetero import hetero_class_tag
+        return dict(type="hetero", head=(hetero_class_tag(o), o.Dy, o.Dx, o.Da, o.Dk),
+                    fields={"M": _np(o.M), "b": _np(o.b), "A": _np(o.A), "W": _np(o.W), "Sigma": _np(o.Sigma),
+                            "Lambda": _np(o.Lambda), "ln_det_Sigma": _np(o.ln_det_Sigma)})
     if isinstance(o, gt_cond.NNControlGaussianConditional):
         return dict(type="cond", head=(0, o.R, o.Dy, o.Dx),
                     fields={"M": np.zeros((o.R, o.Dy, o.Dx)), "b": np.zeros((o.R, o.Dy)), "Sigma": _np(o.Sigma),
@@ -149,6 +155,8 @@ def parse_dump(tokens):
         head, pos = parse_feature_head(tokens)
     elif t == "empty":
         return dict(type="empty", head=(), fields={})
+    elif t == "hetero":  # [hetero]
+        head = (tokens[1], int(tokens[2]), int(tokens[3]), int(tokens[4]), int(tokens[5])); pos = 6
     else:
         raise ValueError(f"bad dump head {t}")
     fields = {}
